@@ -222,6 +222,62 @@ theorem C02_from_eof_lossy_rounds {mx Ta Ti Tn : Nat} (src : Bytes) (m : Recv.Me
   exact C02_lossy_rounds_fair rounds _ t j t0 a1 a2 hmax a4 a5 hft hfs (by rw [a3]; exact hinc) hf
     (fun x hx hnx => hcov x hx (by rw [← a3]; exact hnx))
 
+/-! ### the premises are satisfiable -/
+
+/-- the receiver after the Metadata and the first segment; the second segment was lost and the EOF is still to come -/
+def exRE : Recv.State :=
+  (recvRun (Recv.new cfgL [([], .dir)] 0) [(0, .pdu exOut[0]!), (0, .pdu exOut[1]!)]).1
+
+example : FG (nakRounds (eofFlush exRE 5 6 exOut[3]!).1
+    [(1000000006, []), (2000000100, [(2000000105, ⟨default, .fileData 4 [5, 6]⟩)])]) := by
+  have hmd : exRE.md = some { srcName := [115], dstName := [100], fileSize := 6, closure := false, cksumType := .Null, requests := [] } := by
+    rfl
+  have hsegs : exRE.segs = [(0, 4)] := by decide
+  have htmp : exRE.tempFile = some [1, 2, 3, 4] := by decide
+  have hri : RI cfgL.max (cfgL.ta * 1000000000) (cfgL.ti * 1000000000) (cfgL.tn * 1000000000) exRE :=
+    ri_run _ _ (ri_new cfgL [([], .dir)] 0 (by decide) (by decide) (by decide) ⟨by decide, by decide, by decide⟩)
+  have t1 : Truthful Send.exFile 4 [5, 6] := ⟨by decide, fun i hi => by
+    have : i = 0 ∨ i = 1 := by simp only [List.length_cons, List.length_nil] at hi; omega
+    rcases this with rfl | rfl <;> rfl⟩
+  have hdata : DataOk Send.exFile exRE := by
+    refine ⟨?_, ?_, ?_, ?_⟩
+    · rw [hsegs]; exact ⟨fun sg hsg => by simp at hsg; subst hsg; decide, by simp⟩
+    · rw [hsegs]; intro sg hsg; simp at hsg; subst hsg; decide
+    · rw [htmp]; decide
+    · rw [hsegs, htmp]
+      intro x hx
+      obtain ⟨sg, hsg, h1, h2⟩ := hx
+      simp at hsg; subst hsg
+      have : x = 0 ∨ x = 1 ∨ x = 2 ∨ x = 3 := by simp only at h1 h2; omega
+      rcases this with rfl | rfl | rfl | rfl <;> rfl
+  have hinc : ∃ x, x < Send.exFile.length ∧ ¬ Seg.cov exRE.segs x := by
+    rw [hsegs]
+    refine ⟨4, by decide, ?_⟩
+    rintro ⟨sg, hsg, h1, h2⟩
+    simp at hsg; subst hsg
+    simp only at h1 h2; omega
+  have he : ∃ e, (exOut[3]!).payload = .eof e ∧ e.cond = .NoError ∧ e.fileSize = 6 ∧ e.checksum = 0 := ⟨_, rfl, rfl, rfl, rfl⟩
+  obtain ⟨e, hp, he1, he2, he3⟩ := he
+  refine C02_from_eof_lossy_rounds (mx := 4) (Ta := 1000000000) (Ti := 3000000000) (Tn := 1000000000) Send.exFile _ exRE.fs exRE
+    5 6 0 exOut[3]! e _ (by decide) (by decide) (by decide) hmd (by decide) hdata hinc rfl (by decide) (by decide) (by decide)
+    hri.inv.rt (by decide) (Or.inl (by decide)) (by decide) hp he1 he2 (by rw [he3]; rfl) (by decide) ?_ ?_
+  · simp only [Fair]
+    refine Or.inr ⟨by decide, by decide, by decide, by decide, by decide, (fun x hx => by cases hx), ?_⟩
+    refine Or.inr ⟨by decide, by decide, by decide, by decide, by decide, ?_, trivial⟩
+    intro x hx
+    simp only [List.mem_singleton] at hx
+    subst hx
+    exact Or.inl ⟨4, [5, 6], rfl, t1⟩
+  · intro x hx hnx
+    rw [hsegs] at hnx
+    have hx' : x < 6 := hx
+    have : x = 4 ∨ x = 5 := by
+      have : ¬ (0 ≤ x ∧ x < 4) := fun hc => hnx ⟨(0, 4), by simp, hc.1, hc.2⟩
+      omega
+    refine ⟨_, List.mem_cons_of_mem _ (List.mem_cons_self ..), ⟨_, List.mem_cons_self .., 4, [5, 6], rfl, ?_, ?_⟩⟩
+    · rcases this with rfl | rfl <;> decide
+    · rcases this with rfl | rfl <;> decide
+
 end Cfdp.Loop
 
 #print axioms Cfdp.Loop.C02_from_eof_lossy_rounds
